@@ -19,4 +19,58 @@ CHECKS = {
                     "postconditions taken from the property text (concatenation == input, non-empty uniform maximal runs; "
                     "merge == stable azimuth-ordered union / Err on mismatch) for all sequences, no bound.",
     ),
+    "C10": dict(
+        verus=[dict(unit="framing", functions=["MessageHeader::"])],
+        kani=[dict(crate="nexrad-decode", files=["c10.rs"], harnesses=[
+            dict(name="c10_layout_message_header", what="8 header fields at ICD offsets 12,14,15,16,18,20,24,26 through the real serde/bincode path, all 2^224 byte values"),
+            dict(name="c10_type_map", what="message_type() for all 256 codes vs ICD Table I; Unknown(code) preserved; distinct codes distinct types"),
+            dict(name="c10_redundant_channel", what="six defined redundant-channel codes"),
+            dict(name="c10_size_rule", what="segmented/size/count/number semantics for all u16^3, no overflow"),
+            dict(name="c10_size_agree", what="uom-typed and plain size accessors agree for all u16^3"),
+        ])],
+        trusted_base=STD_TRUST + KANI_TRUST,
+        explanation="Every harness is loop-free over the full field domain (complete, no unwinding bound); the header "
+                    "accessors are additionally proved by Verus on the extracted text (fast first stage).",
+    ),
+    "C03": dict(
+        verus=[dict(unit="framing")],
+        trusted_base=STD_TRUST + [
+            "reader model: Read::read_exact consumes exactly |buf| bytes or fails when fewer remain (std::io contract for &[u8]/Cursor)",
+            "util::deserialize::<_, MessageHeader> reads 28 bytes at the ICD offsets (proved by Kani harness c10_layout_message_header)",
+            "decode_digital_radar_data consumes spec_drd(bytes).1 bytes on Ok (checked only by the bounded C02 routing harnesses)",
+        ],
+        not_decided=["that a type-31 message with contiguous blocks in pointer order consumes exactly its own length "
+                     "(assumed contract of decode_digital_radar_data; bounded evidence under C02)"],
+        explanation="decode_messages / decode_message_contents / decode_message_header extracted verbatim; postcondition "
+                    "result == spec_stream(bytes) for all byte streams and all 256 type codes, loop invariant over a ghost "
+                    "cursor, termination by remaining length.",
+    ),
+    "C05": dict(
+        verus=[dict(unit="container")],
+        trusted_base=STD_TRUST + ["i32::from_be_bytes / unsigned_abs std contracts; [u8]==[u8;N] compares contents"],
+        not_decided=["decompress(record built from payload) == payload: reduces to bzip2's own round trip (C library behind FFI)",
+                     ],
+        explanation="split_compressed_records, File::records, Record::{new,from_slice,data,compressed}, Chunk::{new,data} "
+                    "extracted verbatim; record list == tile(bytes) for every byte string and lemma_tile_wf: for "
+                    "well-formed data the records concatenate to the data and each is prefix+|size| bytes.",
+    ),
+    "C06": dict(
+        verus=[dict(unit="container")],
+        trusted_base=STD_TRUST + ["i32::from_be_bytes / unsigned_abs std contracts; [u8]==[u8;N] compares contents"],
+        not_decided=["Debug formatting plumbing (std::fmt builders) and bzip2 returning Err on corrupt streams are assumed"],
+        explanation="Same unit as C05 without the well-formedness hypothesis: no slice/index/overflow obligation can fail and "
+                    "the loop terminates for every byte string.",
+    ),
+}
+
+NOT_APPLICABLE = {
+    "C14": "summarize::messages is one 200-line function over Enumerate/any/FnMut-capturing closures/HashMap/HashSet/chrono: "
+           "Verus rejects the constructs (rewriting would verify a look-alike) and Kani did not finish on 3 symbolic "
+           "messages in 20 min / 5.7 GB; no contract within reach of either engine decides it (DESIGN.md section 6)",
+    "C17": "behaviour lives in reqwest (async HTTP) and xml-rs behind a network boundary; no function contract within reach "
+           "of Verus or Kani expresses 'for every bucket content' (DESIGN.md section 6)",
+    "C18": "whole-history property over schedules, virtual time, retries and channels in an async loop; contracts here have "
+           "no concurrency/liveness vocabulary and Kani has no async runtime (DESIGN.md section 6)",
+    "C20": "a property of the build-configuration space (feature powerset), decided by running the compiler; there is no "
+           "function to put a contract on (DESIGN.md section 6)",
 }
